@@ -266,7 +266,7 @@ Delete(hh, rts, i) ==
 (* cJSON_InsertItemInArray (cJSON.c:2292)                                   *)
 (***************************************************************************)
 InsertItemInArray(hh, rts, p, idx, i) ==
-  IF idx < 0 \/ i = NULL THEN Same(hh, rts, Flag(FALSE))
+  IF idx < 0 \/ i = NULL \/ p = i THEN Same(hh, rts, Flag(FALSE))       \* an array is not inserted into itself
   ELSE LET a == ArrayItem(hh, p, idx) IN
        IF a = NULL THEN AddItemToArray(hh, rts, p, i)
        ELSE IF a # hh[p].ch /\ hh[a].pv = NULL THEN Same(hh, rts, Flag(FALSE))
